@@ -11,6 +11,7 @@ theorem hb_lt {tr : Trace} {i j : Nat} (h : HB tr i j) : i < j := by
   | fork _ _ h => exact h
   | join _ _ h => exact h
   | lock _ _ _ _ h => exact h
+  | chan _ _ h => exact h
   | trans _ _ ih₁ ih₂ => exact Nat.lt_trans ih₁ ih₂
 
 theorem At.inj {tr : Trace} {i : Nat} {t u : Tid} {a b : Act} (h₁ : At tr i t a) (h₂ : At tr i u b) :
